@@ -518,7 +518,7 @@ func init() {
 		Runs:   clientRuns(50000, 3000000),
 		Floors: []Floor{{Name: "same-op-twice-cold", Count: func(t string) int { return len(c20Floor(t)) }, Scenario: func(t string, i int) any { return c20Floor(t)[i] }},
 			{Name: "two-values-every-single-preemption", Sweep: true, Count: func(t string) int { return len(c20SweepFloor(t)) }, Scenario: func(t string, i int) any { return c20SweepFloor(t)[i] }}},
-		Rule:   "one evaluation = one simulated run starting from cold plan caches in which 2-6 tasks each execute 1-8 corpus operations (encode to TTLV/XML/JSON/text, decode from TTLV/XML/JSON; corpus = request/response messages of 15 request payloads and 27 response payloads at three protocol versions each with version-gated fields populated, plus generic TTLV trees), optionally preceded by a sequential history and accompanied by a task encoding on reused, cleared encoders, with preemptions at statement granularity inside ttlv/encoder.go and ttlv/decoder.go; distinct = distinct event-log hashes among runs with at least one preemption",
+		Rule: "one evaluation = one simulated run starting from cold plan caches in which 2-6 tasks each execute 1-8 corpus operations (encode to TTLV/XML/JSON/text, decode from TTLV/XML/JSON; corpus = request/response messages of 15 request payloads and 27 response payloads at three protocol versions each with version-gated fields populated, plus generic TTLV trees), optionally preceded by a sequential history and accompanied by a task encoding on reused, cleared encoders, with preemptions at statement granularity inside ttlv/encoder.go and ttlv/decoder.go; distinct = distinct event-log hashes among runs with at least one preemption",
 		Components: map[string][]string{
 			"real": {"ttlv encoders/decoders (binary, XML, JSON, text) incl. lazily built per-type plan caches", "kmip message/payload/object types and registries", "kmipclient request builders (to build the corpus)"},
 			"stub": {"scheduler (baton)", "plan-cache reset function added by the overlay (ttlv/zz_kmipverif.go)"},
